@@ -10,6 +10,7 @@ use lora_phy::mod_params::{DutyCycleParams, RadioError, RadioMode};
 use lora_phy::mod_traits::RadioKind;
 use lora_phy::sx126x::{self, Sx1262, Sx126x, TcxoCtrlVoltage};
 use lora_phy::sx127x::{self, Sx1276, Sx127x};
+use lora_phy::lr1110::{self, Lr1110};
 use lora_phy::lorawan_radio::{Error as LwError, LorawanRadio};
 use lora_phy::{LoRa, RxMode};
 use lorawan_device::async_device::radio::{PhyRxTx, RfConfig, RxConfig, RxMode as LwRxMode, RxStatus, TxConfig};
@@ -32,9 +33,9 @@ pub struct Step {
     pub cancel: bool,
 }
 
-pub const CALLS: [&str; 15] = [
+pub const CALLS: [&str; 16] = [
     "init", "sleep_warm", "sleep_cold", "prep_tx", "tx", "prep_rx_single", "prep_rx_cont", "prep_rx_duty", "start_rx",
-    "complete_rx", "switch_ch", "listen", "prep_cad", "cad", "sync_word",
+    "complete_rx", "switch_ch", "listen", "prep_cad", "cad", "sync_word", "cw",
 ];
 
 const IRQ_TX_DONE: u16 = 0x0001;
@@ -53,6 +54,17 @@ pub fn irq_variants(chip: &str, call: &str) -> Vec<Vec<u16>> {
         "lw_rx_single" | "lw_rx_cont" => "complete_rx",
         c => c,
     };
+    if base_chip(chip) == "lr1110" {
+        // 32-bit status word: TxDone 0x04, RxDone 0x08, PreambleDetected 0x10, HeaderError 0x40, CrcError 0x80,
+        // CadDone 0x100, CadDetected 0x200, Timeout 0x400; an all-zero word after the interrupt line fired is taken
+        // as "transmission complete" by the driver
+        return match call {
+            "tx" => vec![vec![0x04], vec![0x400], vec![0x10, 0x04], vec![0]],
+            "complete_rx" => vec![vec![0x08], vec![0x400], vec![0x10, 0x08], vec![0x08 | 0x80], vec![0x40, 0x400], vec![0, 0, 0x08]],
+            "cad" => vec![vec![0x100], vec![0x300]],
+            _ => vec![vec![]],
+        };
+    }
     if base_chip(chip) == "sx1276" {
         // RegIrqFlags: RxTimeout 0x80, RxDone 0x40, PayloadCrcError 0x20, ValidHeader 0x10, TxDone 0x08, CadDone 0x04, CadDetected 0x01
         return match call {
@@ -81,11 +93,15 @@ struct Script {
     irq: VecDeque<u16>,
     /// SX127x register file (so that read-modify-write sequences see what was written)
     regs: [u8; 128],
+    /// LR11xx: the command whose response the next read transaction carries
+    pending: Option<Vec<u8>>,
 }
 
 type Dev6 = LoRa<Sx126x<MockSpi, MockIv, Sx1262>, MockDelay>;
 type Dev7 = LoRa<Sx127x<MockSpi, MockIv, Sx1276>, MockDelay>;
 
+type Dev11 = LoRa<Lr1110<MockSpi, MockIv>, MockDelay>;
+type Lw11 = LorawanRadio<Lr1110<MockSpi, MockIv>, MockDelay, 22, 0>;
 type Lw6 = LorawanRadio<Sx126x<MockSpi, MockIv, Sx1262>, MockDelay, 22, 0>;
 type Lw7 = LorawanRadio<Sx127x<MockSpi, MockIv, Sx1276>, MockDelay, 20, 0>;
 
@@ -95,6 +111,9 @@ enum Dev {
     /// the same drivers behind the LoRaWAN radio adapter (chips "sx1262-lw", "sx1276-lw")
     C(Lw6),
     D(Lw7),
+    /// LR1110 (16-bit opcodes, responses in a separate transaction), plain and behind the adapter
+    E(Dev11),
+    F(Lw11),
 }
 
 /// calls of the LoRaWAN adapter (`PhyRxTx`)
@@ -148,12 +167,42 @@ pub struct PhyRun {
 impl PhyRun {
     fn new(chip: &str) -> PhyRun {
         let bus = Bus::new();
-        let script = Rc::new(RefCell::new(Script { irq: VecDeque::new(), regs: [0; 128] }));
+        let script = Rc::new(RefCell::new(Script { irq: VecDeque::new(), regs: [0; 128], pending: None }));
         let s2 = script.clone();
         let is127 = base_chip(chip) == "sx1276";
+        let is11 = base_chip(chip) == "lr1110";
+        if is11 {
+            let s3 = script.clone();
+            bus.borrow_mut().on_write = Some(Box::new(move |w: &[u8]| s3.borrow_mut().pending = Some(w.to_vec())));
+        }
         bus.borrow_mut().responder = Box::new(move |w: &[u8], r: &mut [u8]| {
             r.fill(0);
             let mut sc = s2.borrow_mut();
+            if is11 {
+                // a read transaction: Stat1 (one byte) and then the response of the pending command, or - with no
+                // command pending - the six status bytes Stat1, Stat2, IrqStatus(4); the wake-up is a one-byte read
+                let cmd_ok = 0x04u8; // Stat1 bits 3..1 = 2 (CMD_OK)
+                if w.is_empty() && r.len() == 1 {
+                    r[0] = cmd_ok;
+                    return;
+                }
+                if w.is_empty() && r.len() == 6 && !matches!(sc.pending.as_deref(), Some([0x01, 0x0A, ..])) {
+                    let f = sc.irq.pop_front().map(|f| f as u32).unwrap_or(0x0000_07fc);
+                    r[0] = cmd_ok;
+                    r[2..6].copy_from_slice(&f.to_be_bytes());
+                    sc.pending = None;
+                    return;
+                }
+                match sc.pending.take().as_deref() {
+                    // GetRxBufferStatus: length 5 at offset 0
+                    Some([0x02, 0x03, ..]) if r.len() == 2 => {
+                        r[0] = 5;
+                        r[1] = 0;
+                    }
+                    _ => {}
+                }
+                return;
+            }
             if is127 {
                 // the first written byte is the register address (bit 7 clear = read); reads auto-increment
                 let Some(&a) = w.first() else { return };
@@ -217,6 +266,8 @@ impl PhyRun {
             Some(Dev::B(d)) => Some(d.verif_state()),
             Some(Dev::C(d)) => Some(d.verif_state()),
             Some(Dev::D(d)) => Some(d.verif_state()),
+            Some(Dev::E(d)) => Some(d.verif_state()),
+            Some(Dev::F(d)) => Some(d.verif_state()),
             None => None,
         };
         match st {
@@ -242,7 +293,20 @@ impl PhyRun {
             let chip = self.chip.clone();
             let r = catch(|| {
                 let lw = chip.ends_with("-lw");
-                if base_chip(&chip) == "sx1276" {
+                if base_chip(&chip) == "lr1110" {
+                    let rk = Lr1110::new(
+                        MockSpi(bus.clone()),
+                        MockIv(bus.clone()),
+                        lr1110::Config {
+                            pa_selection: lr1110::PaSelection::Hp,
+                            dio_as_rf_switch: Some(Default::default()),
+                            tcxo_ctrl: Some(lr1110::TcxoCtrlVoltage::Ctrl1V8),
+                            use_dcdc: true,
+                            rx_boost: false,
+                        },
+                    );
+                    block_on_budget(LoRa::new(rk, true, MockDelay), 16).map(|r| r.map(|d| if lw { Dev::F(d.into()) } else { Dev::E(d) }))
+                } else if base_chip(&chip) == "sx1276" {
                     let rk = Sx127x::new(
                         MockSpi(bus.clone()),
                         MockIv(bus.clone()),
@@ -276,6 +340,8 @@ impl PhyRun {
                 Some(Dev::B(d)) => catch(|| plain(do_call(d, &call))),
                 Some(Dev::C(d)) => catch(|| do_lw_call(d, &call, &mut to)),
                 Some(Dev::D(d)) => catch(|| do_lw_call(d, &call, &mut to)),
+                Some(Dev::E(d)) => catch(|| plain(do_call(d, &call))),
+                Some(Dev::F(d)) => catch(|| do_lw_call(d, &call, &mut to)),
             };
             timed_out = to;
             r
@@ -328,6 +394,7 @@ fn do_call<RK: RadioKind>(dev: &mut LoRa<RK, MockDelay>, call: &str) -> Option<R
         "prep_cad" => block_on_budget(dev.prepare_for_cad(&mdl), budget),
         "cad" => block_on_budget(dev.cad(&mdl), budget).map(|r| r.map(|_| ())),
         "sync_word" => block_on_budget(dev.set_lora_sync_word(0x1424), budget),
+        "cw" => block_on_budget(dev.continuous_wave(&mdl, 14), budget),
         other => panic!("unknown call {other}"),
     }
 }
@@ -402,7 +469,7 @@ pub fn vh_phy(a: &Args) {
     let mut out = Shards::create(&a.out, "phy", a.shards);
     let mut h = 0usize;
     let mut nhist = 0usize;
-    let chips: Vec<String> = a.get("chips").unwrap_or("sx1262,sx1276,sx1262-lw,sx1276-lw").split(',').map(|s| s.to_string()).collect();
+    let chips: Vec<String> = a.get("chips").unwrap_or("sx1262,sx1276,lr1110,sx1262-lw,sx1276-lw,lr1110-lw").split(',').map(|s| s.to_string()).collect();
     for chip in &chips {
     let chip = chip.as_str();
     // the adapter's alphabet is small: depth 3 in both tiers
@@ -412,7 +479,7 @@ pub fn vh_phy(a: &Args) {
     let depth = if chip.ends_with("-lw") { depth.max(3) } else { depth };
     let alpha = alphabet(chip);
     let (done_tx, to_tx, done_rx, to_rx, pre_rx, herr, cad): (u16, u16, u16, u16, u16, u16, u16) =
-        if base_chip(chip) == "sx1276" { (0x08, 0x08, 0x40, 0x80, 0x10, 0x10, 0x04) } else { (IRQ_TX_DONE, IRQ_TIMEOUT, IRQ_RX_DONE, IRQ_TIMEOUT, IRQ_PREAMBLE, IRQ_HEADER_ERR, IRQ_CAD_DONE) };
+        if base_chip(chip) == "sx1276" { (0x08, 0x08, 0x40, 0x80, 0x10, 0x10, 0x04) } else if base_chip(chip) == "lr1110" { (0x04, 0x400, 0x08, 0x400, 0x10, 0x40, 0x100) } else { (IRQ_TX_DONE, IRQ_TIMEOUT, IRQ_RX_DONE, IRQ_TIMEOUT, IRQ_PREAMBLE, IRQ_HEADER_ERR, IRQ_CAD_DONE) };
     // all sequences up to `depth`
     let mut seqs: Vec<Vec<Step>> = vec![vec![]];
     for _ in 0..depth {
@@ -465,6 +532,8 @@ pub fn vh_phy(a: &Args) {
         vec![st("prep_cad", vec![]), st("cad", vec![cad])],
         vec![st("listen", vec![])],
         vec![st("sync_word", vec![]), st("prep_tx", vec![]), st("tx", vec![done_tx])],
+        vec![st("cw", vec![])],
+        vec![st("cw", vec![]), st("prep_tx", vec![]), st("tx", vec![done_tx])],
     ] };
     for a1 in &firsts {
         for lo in &losers {
